@@ -3,7 +3,7 @@
    submitter programs progs) by some finite schedule - any interleaving of submitters, dispatcher, workers, Shutdown and the
    two environment moves. Every statement is for all such schedules. *)
 From Coq Require Import List Arith Bool ZArith.
-From Verif Require Import C15.Model C15.Proofs.
+From Verif Require Import C15.Model C15.Proofs C15.Proofs2 C15.Proofs3 C15.Proofs4.
 Import ListNotations.
 
 (* No task is lost or duplicated: at every instant the tasks spread over submitters' programs, input channel, dispatcher's hand,
@@ -35,6 +35,48 @@ Theorem C15_started_in_submission_order : forall c progs s, reachable c progs s 
 Proof. exact started_in_submission_order. Qed.
 Print Assumptions C15_started_in_submission_order.
 
+(* ---- liveness (Proofs2-4.v). [internal s a]: a is a move of a goroutine (submitter, dispatcher, worker, the receiving half of
+   Shutdown) rather than of the environment; [quiescent c s]: no goroutine can move; [let_go s]: every running task has been
+   allowed to end. Workers >= 1 as the property says; the input channel has capacity >= 1 (New makes it 2*NumCPU). ---- *)
+(* No deadlock, and nothing is forgotten: a reachable state in which no goroutine can move is the one in which Shutdown has
+   returned, or - Shutdown not yet called - the idle queue: dispatcher in its select, input channel, backlog and task channel empty,
+   every worker idle, every completion acknowledged, and only the environment's gate keeps a submitter from submitting *)
+Theorem C15_quiescent_states_are_idle_or_shut_down : forall c progs s, 1 <= W c -> 1 <= Cin c -> reachable c progs s -> let_go s -> quiescent c s ->
+  (sd_called s = true -> sd_returned s = true /\ pc s = DEnd) /\
+  (sd_called s = false ->
+     pc s = Main /\ inq s = [] /\ backlog s = [] /\ tasksch s = [] /\ busy (ws s) = 0 /\ ready s = 0 /\ received s = processed s /\
+     forall i t r, nth_error (subs s) i = Some (t :: r) -> allowed s <= t).
+Proof. exact quiescent_states. Qed.
+Print Assumptions C15_quiescent_states_are_idle_or_shut_down.
+(* hence in the idle state every task whose Submit has returned has finished, exactly once *)
+Theorem C15_idle_queue_has_run_every_accepted_task : forall c progs s, 1 <= W c -> 1 <= Cin c -> reachable c progs s -> let_go s -> quiescent c s -> sd_called s = false ->
+  forall x, cnt x (finished s) + cnt x (concat (subs s)) = cnt x (concat progs).
+Proof. exact idle_means_all_accepted_done. Qed.
+Print Assumptions C15_idle_queue_has_run_every_accepted_task.
+(* and while Shutdown is waiting some goroutine can always move *)
+Theorem C15_shutdown_is_never_stuck : forall c progs s, 1 <= W c -> 1 <= Cin c -> reachable c progs s -> let_go s ->
+  sd_called s = true -> sd_returned s = false -> exists a, internal s a = true /\ step c s a <> None.
+Proof. exact shutdown_never_stuck. Qed.
+Print Assumptions C15_shutdown_is_never_stuck.
+(* Termination: every move of a goroutine decreases the measure M (13 per task still to be submitted, 12 per task in the input
+   channel, ..., 2 per unacknowledged completion) *)
+Theorem C15_every_goroutine_move_decreases_the_measure : forall c s a s', step c s a = Some s' -> internal s a = true -> Phase s -> M s' < M s.
+Proof. exact internal_step_decreases. Qed.
+Print Assumptions C15_every_goroutine_move_decreases_the_measure.
+(* SHUTDOWN RETURNS UNDER EVERY SCHEDULE, fair or not: once Shutdown has been called and the tasks have been let go, every run of
+   the goroutines is at most M s moves long, and when it cannot be continued Shutdown has returned with every submitted task
+   finished exactly once *)
+Theorem C15_shutdown_returns_under_every_schedule : forall c progs s l s', 1 <= W c -> 1 <= Cin c ->
+  reachable c progs s -> sd_called s = true -> all_released progs s -> isteps c s l s' ->
+  length l <= M s /\ (quiescent c s' -> sd_returned s' = true /\ pc s' = DEnd /\ forall x, cnt x (finished s') = cnt x (concat progs)).
+Proof. exact shutdown_returns_under_every_schedule. Qed.
+Print Assumptions C15_shutdown_returns_under_every_schedule.
+(* the runner the correspondence check evaluates the model with stops in a quiescent state - not because it ran out of fuel -
+   whenever the fuel is at least the measure *)
+Theorem C15_quiesce_reaches_quiescence : forall c progs fuel s, reachable c progs s -> M s <= fuel -> quiescent c (quiesce fuel c s).
+Proof. exact quiesce_reaches_quiescence. Qed.
+Print Assumptions C15_quiesce_reaches_quiescence.
+
 (* ---- the hypotheses are met by real runs: a script reaches the state in which Shutdown has returned, through steps of the system *)
 Module NonVacuous.
   Definition c := {| W := 1; depth := 0%Z; Cin := 4; panics := [2] |}.
@@ -48,5 +90,10 @@ Module NonVacuous.
     induction l as [|o l IH]; intros s R; [exact R|]. cbn [fold_left]. apply IH. apply script_state_reachable, R.
   Qed.
   Example s_end_is_final : (sd_returned s_end, match pc s_end with DEnd => true | _ => false end, finished s_end, handled s_end, started s_end) = (true, true, [0; 1; 2; 3; 4; 5], [2], [0; 1; 2; 3; 4; 5]).
+  Proof. vm_compute. reflexivity. Qed.
+  (* the liveness hypotheses are met: a reachable state with Shutdown called but not returned, every task let go, measure within the runner's fuel *)
+  Definition s_mid := match step c (fold_left (script_state c) [SAllow 6; SRel 0; SRel 1; SRel 2; SRel 3; SRel 4; SRel 5] (init c progs)) AShutdown with Some x => x | None => init c progs end.
+  Example s_mid_meets_the_hypotheses :
+    (sd_called s_mid, sd_returned s_mid, forallb (fun t => existsb (Nat.eqb t) (released s_mid)) (concat progs), M s_mid <=? QFUEL, M (init c progs) <=? QFUEL) = (true, false, true, true, true).
   Proof. vm_compute. reflexivity. Qed.
 End NonVacuous.
